@@ -94,6 +94,8 @@ Record state := mkS {
   s_status : mstatus }.
 
 Definition is_exit (w : wstate) : bool := match w with WExit => true | _ => false end.
+(* a worker that holds no range and has nothing to publish: it has left its loop, or stands at the head of it (pc 0) *)
+Definition w_idle (w : wstate) : bool := match w with WExit => true | WRun O _ _ => true | WRun (S _) _ _ => false end.
 Definition all_exited (s : state) : bool := forallb is_exit (s_ws s).
 Definition main_done (s : state) : bool := match s_status s with MRunning => false | _ => true end.
 
@@ -397,3 +399,58 @@ Definition xmeasure (job : list jinstr) (s : xstate) : nat :=
 (* first failing range in submission order *)
 Fixpoint first_failing (fails : range -> bool) (ranges : list range) : option range :=
   match ranges with [] => None | r :: t => if fails r then Some r else first_failing fails t end.
+
+(* ------------------------------------------------------------------------------------------------ successive queries of one reader *)
+(* What CopcReader keeps of a query's fetched blocks for the queries that follow (Gen/GenFetch.v: gen_fetch_site, extracted from
+   _fetch_all_chunks and the code around it).  FsDirect - nothing: every query hands ITS byte ranges and ITS zero-filled buffer
+   to the strategy.  FsMemo - a block cache in the reader; the source has none, the constructor is here for the contrast and the
+   refutation below: blocks fetched by earlier queries are reused, looked up by their start offset only, or by the whole range
+   (offset, size).  `fetch` is what the strategy run of a query yields for the ranges it is handed; every query of a session has
+   its own (its own schedule, its own failing requests). *)
+Definition memo := list (range * list Z).
+Definition memo_get (by_offset_only : bool) (m : memo) (r : range) : option (list Z) :=
+  option_map snd (find (fun e : range * list Z => (fst (fst e) =? fst r) && (by_offset_only || (snd (fst e) =? snd r))) m).
+
+(* ChunkIter over a buffer: consecutive blocks of the given sizes *)
+Fixpoint split_by (sizes : list Z) (buf : list Z) : list (list Z) :=
+  match sizes with [] => [] | n :: t => take n buf :: split_by t (drop n buf) end.
+
+Definition reader_query (site : fetch_site) (fetch : list range -> outcome) (m : memo) (ranges : list range) : outcome * memo :=
+  match site with
+  | FsDirect => (fetch ranges, m)
+  | FsMemo k =>
+      let missing := filter (fun r => match memo_get k m r with None => true | Some _ => false end) ranges in
+      match fetch missing with
+      | ORaised r => (ORaised r, m)
+      | OReturned buf =>
+          let m' := m ++ combine missing (split_by (map snd missing) buf) in
+          (OReturned (concat (map (fun r => match memo_get k m' r with Some b => b | None => [] end) ranges)), m')
+      end
+  end.
+
+Fixpoint reader_session (site : fetch_site) (m : memo) (qs : list (list range * (list range -> outcome))) : list outcome :=
+  match qs with
+  | [] => []
+  | (ranges, fetch) :: t => let om := reader_query site fetch m ranges in fst om :: reader_session site (snd om) t
+  end.
+
+(* a complete run of one of the two strategies, as _fetch_all_chunks starts it, on the given ranges against the given server *)
+Inductive strategy_run (file : list Z) (server : range -> option response) (ranges : list range) : outcome -> Prop :=
+| SRQueue : forall n ps, (1 <= n)%nat ->
+    preach gen_worker_prog file (stream_fails gen_stream_read server) (pinit gen_main_prog ranges (gen_fetch_workers n)) ps ->
+    main_done (p_s ps) = true ->
+    strategy_run file server ranges
+      (match s_status (p_s ps) with MRaised r => ORaised r | _ => OReturned (s_buf (p_s ps)) end)
+| SRExec : forall n s o, (1 <= n)%nat ->
+    xreach gen_exec_stream_per_job gen_exec_collect gen_exec_job file (stream_fails gen_stream_read server)
+           (xinit ranges (gen_fetch_workers n)) s ->
+    x_main s = XDone o -> strategy_run file server ranges o.
+
+(* what a query has to yield: the local read of its ranges, or the exception of one of ITS requests that failed *)
+Definition query_spec (file : list Z) (server : range -> option response) (ranges : list range) (o : outcome) : Prop :=
+  if existsb (stream_fails gen_stream_read server) ranges
+  then exists r, o = ORaised r /\ In r ranges /\ stream_fails gen_stream_read server r = true
+  else o = OReturned (local_read file ranges).
+
+(* one query of a session: its ranges, the server as it answers during this query, what the strategy run it starts yields *)
+Record squery := mkQ { q_ranges : list range; q_server : range -> option response; q_fetch : list range -> outcome }.
